@@ -7,6 +7,7 @@ import (
 	"encoding/hex"
 	"encoding/pem"
 	"fmt"
+	"math/big"
 	"os"
 	"os/exec"
 	"path/filepath"
@@ -84,11 +85,14 @@ type c19Case struct {
 	w       *world.World
 	sample  bool // the Intel sample quote instead of w's
 	getter  string // "" | "local"
+	net     map[string]world.Resp // non-nil: the tool's network is the loopback proxy answering from this table
 	want    int  // expected exit code fixed by the property for this construction, -1 = no assertion
 	wantWhy string
 }
 
 type c19Env struct {
+	net    *fakeNet
+	caFile string
 	c      *core.Ctx
 	bin    string
 	dir    string
@@ -285,6 +289,13 @@ func (e *c19Env) exec(cs *c19Case) *c19Result {
 
 	// ---- run ----
 	cmd := exec.Command(e.bin, args...)
+	if cs.net != nil && e.net != nil {
+		e.mu.Lock()
+		e.fileNo++
+		id := fmt.Sprintf("run%d", e.fileNo)
+		e.mu.Unlock()
+		cmd.Env = append(os.Environ(), e.net.env(id, cs.net, e.caFile)...)
+	}
 	var stderr bytes.Buffer
 	cmd.Stderr = &stderr
 	cmd.Stdout = nil
@@ -306,6 +317,9 @@ func (e *c19Env) exec(cs *c19Case) *c19Result {
 		for u, r := range testcases.TestGetter.Responses {
 			sc.Resp[u] = world.Resp{Header: r.Header, Body: r.Body}
 		}
+	}
+	for u, r := range cs.net {
+		sc.Resp[u] = r
 	}
 	worldS, _ := sc.abstract()
 	idx := map[*x509.Certificate]int{}
@@ -376,6 +390,13 @@ func C19(c *core.Ctx) {
 	if out, err := build.CombinedOutput(); err != nil {
 		c.Add(&core.Case{Class: "build", Desc: "go build ./tools/check failed: " + lastN(string(out), 600), SkipModel: true, Impl: core.Ls(), GT: "the check tool does not build"})
 		return
+	}
+	if fn, err := newFakeNet(); err == nil {
+		e.net = fn
+		e.caFile = e.file("proxy-ca.pem", fn.caPEM)
+		defer fn.close()
+	} else {
+		c.Add(&core.Case{Class: "build", Desc: "loopback proxy: " + err.Error(), SkipModel: true, Impl: core.Ls()})
 	}
 	mkWorld := func() *world.World {
 		pki, err := world.NewPKI(r, world.PKIOpts{Now: now, Ext: world.RandomSGXExt(r)})
@@ -928,6 +949,66 @@ func C19(c *core.Ctx) {
 		cs.bytesF[5] = hexFlag(wrongOf(body.MrTd))
 		cs.want = 3
 		add(cs)
+		// a network of our own (loopback HTTPS proxy): every endpoint served, down, or answering something else
+		if e.net != nil {
+			tcbURL, qeURL, pckURL, rootURL := w.URLs()
+			full := func() map[string]world.Resp { return cloneResp(w.Getter().Resp) }
+			type nv struct {
+				name string
+				mut  func(m map[string]world.Resp)
+				crl  bool
+				want int
+			}
+			down := func(u string) func(m map[string]world.Resp) {
+				return func(m map[string]world.Resp) { m[u] = world.Resp{Err: fmt.Errorf("down")} }
+			}
+			vs := []nv{
+				{"every endpoint served, collateral only", nil, false, 0},
+				{"every endpoint served, collateral and CRLs", nil, true, 0},
+				{"TCB info endpoint down", down(tcbURL), true, 3},
+				{"QE identity endpoint down", down(qeURL), true, 3},
+				{"PCK CRL endpoint down", down(pckURL), true, 3},
+				{"Root CA CRL endpoint down", down(rootURL), true, 3},
+				{"Root CA CRL endpoint down, revocation off", down(rootURL), false, 0},
+				{"TCB info signature broken", func(m map[string]world.Resp) {
+					x := m[tcbURL]
+					x.Body = []byte(strings.Replace(string(x.Body), `"signature":"`, `"signature":"00`, 1))
+					m[tcbURL] = x
+				}, true, 2},
+				{"QE identity from another PKI", func(m map[string]world.Resp) { m[qeURL] = foreign.Getter().Resp[qeURL] }, false, 2},
+				{"PCK CRL is not a CRL", func(m map[string]world.Resp) { x := m[pckURL]; x.Body = []byte("zz"); m[pckURL] = x }, true, -1},
+				{"TCB info body is HTML", func(m map[string]world.Resp) { x := m[tcbURL]; x.Body = []byte("<html>"); m[tcbURL] = x }, false, -1},
+			}
+			for _, v := range vs {
+				cs = base("network/proxy", v.name)
+				cs.net = full()
+				if v.mut != nil {
+					v.mut(cs.net)
+				}
+				cs.getCol = boolFlag(true)
+				if v.crl {
+					cs.checkCrl = boolFlag(true)
+				}
+				cs.want, cs.wantWhy = v.want, "a document that cannot be downloaded is a network failure (3), a downloaded but unauthentic one a verification failure (2)"
+				add(cs)
+			}
+			cs = base("network/proxy", "collateral fine, policy mismatching")
+			cs.net = full()
+			cs.getCol, cs.checkCrl = boolFlag(true), boolFlag(true)
+			cs.bytesF[5] = hexFlag(wrongOf(body.MrTd))
+			cs.want = 4
+			add(cs)
+			cs = base("network/proxy", "leaf certificate revoked")
+			cs.net = full()
+			if crl, err := world.MakeCRL(r, w.PKI.Inter, []*big.Int{w.PKI.Leaf.Cert.SerialNumber}, now.Add(-time.Hour), now.Add(time.Hour), 7); err == nil {
+				x := cs.net[pckURL]
+				x.Body = crl
+				cs.net[pckURL] = x
+			}
+			cs.getCol, cs.checkCrl = boolFlag(true), boolFlag(true)
+			cs.want = 2
+			add(cs)
+		}
 		// the Intel sample quote
 		cs = &c19Case{class: "sample", desc: "Intel sample quote, embedded root, no collateral", w: w, sample: true, want: 0,
 			wantWhy: "the genuine sample quote verifies under the embedded root while its PCK certificates are in date"}
